@@ -1,4 +1,5 @@
 import TabulaModel.Model.A1
+import TabulaModel.Model.HtmlGrid
 /-!
 Model of the Markdown emitters of tabula (C15) and of the GFM reading spec they are
 judged against.  Core Lean only.  Strings are `Str = List Nat` (byte values).
@@ -8,7 +9,8 @@ Go functions mirrored (as they are after the C15 fixes in the worktree):
 * `docx.(*ParsedTable).ToMarkdown`, `odt.(*ParsedTable).ToMarkdown` (docx/tables.go, odt/tables.go)
 * `xlsx.ParsedTable.ToMarkdown` / `xlsx.escapeMarkdown`          (xlsx/reader.go)
 * `pptx.(*Table).ToMarkdown` / `pptx.escapeMarkdown`             (pptx/slide.go)
-* `htmldoc.(*ParsedTable).ToMarkdown` / `htmldoc.escapeMarkdown` (htmldoc/types.go)
+* `htmldoc.(*ParsedTable).ToMarkdown` / `htmldoc.escapeMarkdown` (htmldoc/types.go); the grid it
+  writes (`(*ParsedTable).grid`, `layout`, `cellSpan`) is Model/HtmlGrid.lean
 * `rag.MarkdownOptions.AdjustHeadingLevel` (used by htmldoc/pptx/xlsx `MarkdownWithRAGOptions`;
   docx and odt carry the same lines inline) and the heading arithmetic of
   `rag.(*Chunk).ToMarkdownWithOptions`                            (rag/metadata.go)
@@ -177,11 +179,41 @@ def gridRow (w : Writer) (n : Nat) (cells : List SCell) : List Str :=
     if c.cont then List.replicate c.cols [] else normCell w c.text :: List.replicate (c.cols - 1) [])
   ++ List.replicate (n - rowCols cells) []
 
-/-- `htmldoc.(*ParsedTable).ToMarkdown` on a table whose cells carry `colspan`/`rowspan`
-(finding, not fixed): the spans are ignored — one Markdown cell per `<td>`/`<th>`, cells covered
+/-! ## htmldoc tables with colspan / rowspan -/
+
+/-- `htmldoc.TableCell`: text, `ColSpan`, `RowSpan` (any integers: the parser stores what
+`Sscanf("%d")` read, a hand-built table may hold zero values) -/
+structure HCell where
+  text : Str
+  colSpan : Int := 1
+  rowSpan : Int := 1
+  deriving Repr, DecidableEq
+
+/-- `(*ParsedTable).grid()`: the cells on the table's grid (Model/HtmlGrid.lean) -/
+def htmlGrid (t : List (List HCell)) : List (List (Option HCell)) :=
+  HtmlGrid.grid HCell.colSpan HCell.rowSpan t
+
+/-- number of columns of the grid -/
+def htmlWidth (t : List (List HCell)) : Nat := HtmlGrid.gridWidth HCell.colSpan HCell.rowSpan t
+
+/-- the text `ToMarkdown` writes at a grid position: the cell's, nothing where no cell stands -/
+def gridText : Option HCell → Str
+  | some c => c.text
+  | none => []
+
+/-- the grid as texts: what a reader should get back (before the cell normalisation) -/
+def htmlGridTexts (t : List (List HCell)) : List (List Str) := (htmlGrid t).map (·.map gridText)
+
+/-- `htmldoc.(*ParsedTable).ToMarkdown` (after fix 72cc329): the plain writer on the grid — every
+position of the grid is written as a cell, a covered or open position like a cell with empty
+text; first line of the grid above the separator, as many separator cells as grid columns.
+The table without rows gives the empty string (`htmlGridTexts [] = []`). -/
+def renderHtmlSpan (t : List (List HCell)) : Str := render .html (htmlGridTexts t)
+
+/-- `ToMarkdown` as it was before the fix (finding C15/table-shape-merged-html, kept for the
+counterexamples): the spans are ignored — one Markdown cell per `<td>`/`<th>`, positions covered
 from above do not exist, the separator has as many cells as the first row. -/
-def renderHtmlSpan (t : List (List SCell)) : Str :=
-  render .html (t.map fun r => (r.filter fun c => !c.cont).map (·.text))
+def renderHtmlSpanOld (t : List (List HCell)) : Str := render .html (t.map (·.map (·.text)))
 
 /-- the pinned (pre-fix) row loop of docx/odt, kept for the counterexample: continuations
 are skipped, a spanning cell writes one cell only -/
